@@ -325,6 +325,11 @@ func (u *upstream) updateClients(clients map[string]*client) {
 
 func (u *upstream) handleRedirection(req *simpleRequest, resp *RespValue) {
 	err := strings.Split(string(resp.Text), " ")
+	// the redirection error should be "MOVED|ASK <slot> <host:port>".
+	if len(err) < 3 || err[2] == "" {
+		req.SetResponse(newError("ERR invalid redirection from backend"))
+		return
+	}
 	hostAddr := err[2]
 	switch strings.ToLower(err[0]) {
 	case MOVED:
